@@ -111,13 +111,14 @@ def unit_scope(ctx, align, model_ok):
             if align and len(sizes) == 1:
                 pass   # Hasher itself pads a single file when align=True; the creator forces align=False (checked e2e)
             if got != exp:
-                ctx.fail("hasher-vs-bep3" + ("-align" if align else ""), {"sizes": sizes, "piece_length": pl, "align": align},
+                ctx.fail("hasher-vs-bep3" + ("-align" if align else ""),
+                         {"sizes": sizes, "piece_length": pl, "align": align, "case": _hasher_case(align, pl, sizes)},
                          [h.hex() for h in exp][:8], [h.hex() for h in got][:8])
             tree = {(f"f{i:03d}",): d for i, d in enumerate(datas)}
             cl = trees.classify_v1(tree, pl)
             ctx.case(key=("unit", align, tuple(sizes), pl), classes=[("align " if align else "") + c for c in cl],
                      nontrivial=bool(cl), sample={"sizes": sizes, "pl": pl, "align": align} if n == 7 else None)
-            lines.append(("hasher", "1" if align else "0", str(pl), ",".join(d.hex() for d in datas), b"".join(got).hex()))
+            lines.append(("hasher", "1" if align else "0", str(pl), ",".join(d.hex() for d in datas), b"".join(got).hex(), sizes))
     if model_ok:
         outs = modelrun.run("hasher", [l[1:4] for l in lines])
         if outs is None:
@@ -126,68 +127,79 @@ def unit_scope(ctx, align, model_ok):
             for l, o in zip(lines, outs):
                 ctx.traces_validated += 1
                 if o != l[4]:
-                    ctx.disagree("Model/Hasher.v vs hasher.Hasher", {"align": l[1], "pl": l[2], "files_hex": l[3][:200]},
+                    # sizes: the contents are small_data(index, size), so the size tuple rebuilds the files exactly
+                    ctx.disagree("Model/Hasher.v vs hasher.Hasher",
+                                 {"align": l[1], "pl": l[2], "files_hex": l[3][:200], "sizes": l[5],
+                                  "case": _hasher_case(l[1] == "1", int(l[2]), l[5])},
                                  o[:120], l[4][:120])
 
 
 def e2e(ctx):
     n = 40 if ctx.tier == "quick" else 600
     core.use_repo_in_process()
-    from torrentfile.cli import execute
     with core.Scratch("vc01e_") as tmp:
         os.environ["HOME"] = tmp
         for i in range(n):
-            pl = ctx.rng.choice([16384, 16384, 32768, 65536])
-            tree, cl = trees.gen_tree(ctx.rng, pl)
-            single = list(tree) == [()]
-            root = os.path.join(tmp, f"c{i}", "payload.bin" if single else "payload")
-            trees.write_tree(root, tree)
-            out = os.path.join(tmp, f"c{i}", "o.torrent")
-            via_cli = (i % 4 == 3)
-            try:
-                if via_cli:
-                    trees.quiet(execute, ["create", "--piece-length", str(pl), "-o", out, "--prog", "0", root])
-                    raw = oracle.read(out)
-                else:
-                    raw = trees.create("v1", root, out, pl)
-            except Exception as e:  # noqa
-                ctx.fail("create-raised", {"tree": trees.tree_summary(tree), "piece_length": pl, "cli": via_cli},
-                         "a metafile", f"{type(e).__name__}: {e}")
-                continue
-            try:
-                meta = oracle.bdecode_strict(raw)
-            except Exception:  # noqa  canonical form is C06's business; read leniently here
-                import pyben
-                meta = _to_bytes(pyben.loads(raw))
-            info = meta[b"info"]
-            problems = []
-            if info.get(b"piece length") != pl:
-                problems.append(f"piece length {info.get(b'piece length')} != {pl}")
-            disk = oracle.walk_tree(root)
-            if single:
-                data = oracle.read(root)
-                if b"files" in info:
-                    problems.append("single file has a files list")
-                if info.get(b"length") != len(data):
-                    problems.append(f"length {info.get(b'length')} != {len(data)}")
-                stream = data
-            else:
-                listed = [(tuple(c.decode() for c in f[b"path"]), f[b"length"]) for f in info.get(b"files", [])]
-                want = sorted((comps, os.path.getsize(p)) for comps, p in disk)
-                if sorted(listed) != want:
-                    problems.append(f"file list differs from disk: listed {sorted(listed)[:6]} disk {want[:6]}")
-                stream = b"".join(oracle.read(os.path.join(root, *comps)) if os.path.isfile(os.path.join(root, *comps)) else b""
-                                  for comps, _ in listed)
-            exp = b"".join(oracle.v1_pieces(stream, pl))
-            if info.get(b"pieces") != exp:
-                problems.append("pieces != SHA-1 of successive piece-length slices of the listed files")
-            if problems:
-                ctx.fail("v1-metafile", {"tree": trees.tree_summary(tree), "piece_length": pl, "cli": via_cli},
-                         "BEP 3", problems)
-            order = None if single else [tuple(c.decode() for c in f[b"path"]) for f in info.get(b"files", [])]
-            cl |= trees.classify_v1(tree, pl, order if order and set(order) == set(tree) else None)
-            ctx.case(key=("e2e", i, tuple(sorted(trees.tree_summary(tree).items())), pl), classes=sorted(cl),
-                     nontrivial=bool(cl), sample={"tree": trees.tree_summary(tree), "pl": pl} if i == 2 else None)
+            e2e_case(ctx, i, tmp)
+
+
+def e2e_case(ctx, i, tmp):
+    """end-to-end case number i of a run: every random choice comes from ctx.rng, whose state at entry is recorded with a
+       failure (the replay restores it and calls this function again: same tree, same contents, same route)"""
+    from torrentfile.cli import execute
+    state = rng_state(ctx.rng)
+    pl = ctx.rng.choice([16384, 16384, 32768, 65536])
+    tree, cl = trees.gen_tree(ctx.rng, pl)
+    single = list(tree) == [()]
+    root = os.path.join(tmp, f"c{i}", "payload.bin" if single else "payload")
+    trees.write_tree(root, tree)
+    out = os.path.join(tmp, f"c{i}", "o.torrent")
+    via_cli = (i % 4 == 3)
+    desc = {"tree": trees.tree_summary(tree), "piece_length": pl, "cli": via_cli,
+            "index": i, "case": f"e2e:{i}", "rng_state": state}
+    try:
+        if via_cli:
+            trees.quiet(execute, ["create", "--piece-length", str(pl), "-o", out, "--prog", "0", root])
+            raw = oracle.read(out)
+        else:
+            raw = trees.create("v1", root, out, pl)
+    except Exception as e:  # noqa
+        ctx.fail("create-raised", desc, "a metafile", f"{type(e).__name__}: {e}")
+        return desc
+    try:
+        meta = oracle.bdecode_strict(raw)
+    except Exception:  # noqa  canonical form is C06's business; read leniently here
+        import pyben
+        meta = _to_bytes(pyben.loads(raw))
+    info = meta[b"info"]
+    problems = []
+    if info.get(b"piece length") != pl:
+        problems.append(f"piece length {info.get(b'piece length')} != {pl}")
+    disk = oracle.walk_tree(root)
+    if single:
+        data = oracle.read(root)
+        if b"files" in info:
+            problems.append("single file has a files list")
+        if info.get(b"length") != len(data):
+            problems.append(f"length {info.get(b'length')} != {len(data)}")
+        stream = data
+    else:
+        listed = [(tuple(c.decode() for c in f[b"path"]), f[b"length"]) for f in info.get(b"files", [])]
+        want = sorted((comps, os.path.getsize(p)) for comps, p in disk)
+        if sorted(listed) != want:
+            problems.append(f"file list differs from disk: listed {sorted(listed)[:6]} disk {want[:6]}")
+        stream = b"".join(oracle.read(os.path.join(root, *comps)) if os.path.isfile(os.path.join(root, *comps)) else b""
+                          for comps, _ in listed)
+    exp = b"".join(oracle.v1_pieces(stream, pl))
+    if info.get(b"pieces") != exp:
+        problems.append("pieces != SHA-1 of successive piece-length slices of the listed files")
+    if problems:
+        ctx.fail("v1-metafile", desc, "BEP 3", problems)
+    order = None if single else [tuple(c.decode() for c in f[b"path"]) for f in info.get(b"files", [])]
+    cl |= trees.classify_v1(tree, pl, order if order and set(order) == set(tree) else None)
+    ctx.case(key=("e2e", i, tuple(sorted(trees.tree_summary(tree).items())), pl), classes=sorted(cl),
+             nontrivial=bool(cl), sample={"tree": trees.tree_summary(tree), "pl": pl} if i == 2 else None)
+    return desc
 
 
 def _to_bytes(v):
@@ -211,9 +223,379 @@ def run(ctx, model_ok):
     e2e(ctx)
 
 
-def replay(ctx, data):
+# ------------------------------------------------------------------------------------------------ replay toolkit
+# Shared by the replays of C01, C06 and (through v2_common) C02 / C03 / C10.  A replay file records ONE case; `replay`
+#   1. rebuilds that case in a scratch directory (contents are functions of recorded sizes / salts / generator states),
+#      runs the implementation of core.REPO and the judge (or the extracted model) on it and prints what it sees;
+#   2. when the case holds in isolation, re-runs the recorded run (same seed and tier, fresh interpreter) up to that case
+#      and looks for the same report again: an implementation that keeps state between cases (a cache, a class attribute)
+#      fails only after the cases that came before, and those are part of the input.
+def _hasher_case(align, pl, sizes):
+    return f"hasher:{int(bool(align))}:{pl}:" + ",".join(str(x) for x in sizes)
+
+
+def rng_state(rng):
+    """JSON-able state of a random.Random (Mersenne twister words as hex)"""
+    version, words, gauss = rng.getstate()
+    return {"version": version, "words_hex": "".join(f"{w:08x}" for w in words), "gauss_next": gauss}
+
+
+def rng_restore(state):
+    import random
+    h = state["words_hex"]
+    r = random.Random()
+    r.setstate((state["version"], tuple(int(h[k:k + 8], 16) for k in range(0, len(h), 8)), state.get("gauss_next")))
+    return r
+
+
+def cannot(kind, why=""):
+    print(f"replay: cannot rebuild input of kind {kind}" + (f" ({why})" if why else ""))
+    return 2
+
+
+def verdict(tag, rcs):
+    rc = 1 if 1 in rcs else (2 if 2 in rcs or not rcs else 0)
+    print(f"{tag} verdict:", {0: "the property holds on this input", 1: "property VIOLATED on this input",
+                               2: "could not be replayed exactly"}[rc])
+    return rc
+
+
+def replay_creators_item(ctx, d, tag):
+    """one disagreement of the unit correspondence of Model/Creators.v (creators_common.unit): the recorded tree (sizes, salts
+       and ENUMERATION ORDER of every directory), path spelling, working directory, clock, block size and options are rebuilt,
+       the creator of core.REPO writes the metafile again and the extracted model predicts its bytes again"""
     from props import creators_common as cc
-    if data.get("disagreements") or data.get("broken") or "what" in data:
-        return cc.replay_disagreements(ctx, data, "C01")
-    print(data)
+    inp = d.get("input") if isinstance(d.get("input"), dict) else {}
+    what = str(d.get("what", ""))
+    if inp.get("kind") == "unit" and "creator" in inp and "tree" in inp:
+        model, raw = cc.replay_unit(ctx, inp)
+        print(f"{tag} unit correspondence {inp['creator']} on {inp.get('summary')} spelled {inp.get('spelling')!r} "
+              f"({inp.get('spelling_label')}), piece length {inp['piece_length']}, block {inp.get('block')}, options {inp.get('options')}")
+        if isinstance(raw, BaseException):
+            print(f"{tag} DISAGREE: the model predicts a metafile, the creator raised {type(raw).__name__}: {raw}")
+            return 1
+        if model is None:
+            print(f"{tag} cannot evaluate: the extracted creators driver gave no answer (./check --setup)")
+            return 2
+        if model == raw:
+            print(f"{tag} model and implementation agree: {len(raw)} identical bytes")
+            return 0
+        print(f"{tag} model and implementation DISAGREE:", cc._diff(model.hex(), raw))
+        return 1
+    if inp.get("kind") == "filelist_total" and "tree" in inp and "spelling" in inp:
+        return _replay_flt(inp, tag)
+    return cannot("disagreement " + repr(what), "the content tree, its enumeration order and the path spelling are not in the file")
+
+
+CREATORS_MATCH = {"unit": ("kind", "creator", "tree", "piece_length", "options", "payload_name", "spelling_label", "cwd_rel",
+                           "clock", "block"),
+                  "filelist_total": ("kind", "tree", "payload_name", "cwd_rel")}
+
+
+def creators_target(d, phase):
+    """history target of a creators unit disagreement: the case is recognised by its recorded input (it has no number)"""
+    inp = d.get("input") if isinstance(d.get("input"), dict) else {}
+    keys = CREATORS_MATCH.get(inp.get("kind"))
+    if not keys or "tree" not in inp:
+        return None
+    return {"type": "disagreement", "name": str(d.get("what")), "case": None, "phase": phase, "index": None, "expect_key": None,
+            "match": {k: inp.get(k) for k in keys}}
+
+
+def _replay_flt(inp, tag):
+    """utils.filelist_total vs the extracted filelist_total on the recorded tree, enumeration order and spelling"""
+    import re
+    import pathlib
+    from props import creators_common as cc
+    node, payload = inp["tree"], inp["payload_name"]
+    with core.Scratch("vcfr_") as tmp:
+        tmp = os.path.realpath(tmp)
+        absolute = cc.make_case_dir(tmp, payload, node)
+        cwd = os.path.normpath(os.path.join(tmp, inp["cwd_rel"]))
+        spelling = inp["spelling"]
+        if os.path.isabs(spelling):
+            # an absolute spelling names the case directory <scratch>/u<i> of the recorded run: put this one in its place
+            m = re.match(r"^(/*)(/.+?/u\d+)(/w/.*)$", spelling)
+            if not m:
+                return cannot("disagreement filelist_total", f"absolute spelling {spelling!r} does not name a case directory")
+            spelling = m.group(1) + tmp + m.group(3)
+        single = cc.is_file(node)
+        en = cc.EnumOrder(cc.mapping_of(absolute, node))
+        print(f"{tag} filelist_total on {cc.summary(node)} spelled {spelling!r} from {inp['cwd_rel']!r}")
+        try:
+            with cc.patched(cwd=cwd), en:
+                from torrentfile import utils
+                total, flist = utils.filelist_total(spelling)
+                rels = [os.path.relpath(p, spelling) for p in flist] if not single else \
+                    ["" if os.path.samefile(p, spelling) else p for p in flist]
+            impl = f"{total}|" + cc._lst(rels)
+        except Exception as e:  # noqa
+            print(f"{tag} DISAGREE: utils.filelist_total raised {type(e).__name__}: {e}")
+            return 1
+        outs = cc.run_model("flt", [(cc._hx(str(pathlib.PurePosixPath(spelling))), cc.wire(node))])
+    if not outs or outs[0].startswith("ERROR"):
+        print(f"{tag} cannot evaluate: the extracted creators driver gave no answer (./check --setup)")
+        return 2
+    print(f"   implementation {impl[:300]}\n   model          {outs[0][:300]}")
+    print(f"{tag} " + ("model and implementation agree" if outs[0] == impl else "model and implementation DISAGREE"))
+    return 0 if outs[0] == impl else 1
+
+
+def _stem(b):
+    b = str(b)
+    for sep in (" was hit", " was never", ": "):
+        if sep in b:
+            return b.split(sep)[0]
+    return b[:60]
+
+
+def replay_broken(ctx, pid, data, phase_module):
+    """broken obligations: translator / Coq build / audit / driver ones are functions of the source tree and are rebuilt by the
+       shared helper of C17; the others (a boundary class that the run did not reach, the enumeration patch not consulted, a
+       crash of the harness) are functions of the whole run: it is repeated with the recorded seed and tier"""
+    from props import c17
+    recorded = [str(b) for b in data.get("broken") or []]
+    build = [b for b in recorded if b.startswith(c17.REBUILDABLE) or "driver" in b]
+    runlevel = [b for b in recorded if b not in build]
+    rcs = []
+    if build:
+        rcs.append(c17.replay_broken(ctx, pid, build))
+    if runlevel:
+        for b in runlevel:
+            print(f"[{pid} replay] recorded broken obligation of the run: {b[:300]}")
+        targets = [{"type": "broken", "name": s} for s in sorted({_stem(b) for b in runlevel})]
+        rcs.append(history(pid, data, targets, phase_module))
+    return rcs
+
+
+# ---------------------------------------------------------------- history: the run up to the recorded case, fresh interpreter
+class _Stop(Exception):
+    pass
+
+
+def history(pid, data, targets, phase_module, pins=None):
+    """re-run `run` of the property in a fresh interpreter with the seed and tier of the replay file (every case of a run is a
+       function of them) until the recorded cases have been judged; 1 when one of the recorded reports comes back, 0 when the
+       cases were reached and none does, 2 when the run no longer contains them"""
+    import sys
+    import json
+    import tempfile
+    import subprocess
+    if os.environ.get("VERIF_REPLAY_NO_HISTORY"):
+        print(f"[{pid} replay] VERIF_REPLAY_NO_HISTORY is set: the run before the case is not repeated")
+        return 0
+    spec = {"pid": pid, "seed": int(data.get("seed", 0) or 0), "tier": data.get("tier", "quick"), "targets": targets,
+            "phase_module": phase_module, "pins": pins}
+    with tempfile.NamedTemporaryFile("w", suffix=".history.json", delete=False) as fd:
+        json.dump(core.jsonable(spec), fd)
+        name = fd.name
+    what = "whole run" if any(t["type"] == "broken" for t in targets) else "run up to the recorded case"
+    print(f"[{pid} replay] repeating the {what} (seed {spec['seed']}, tier {spec['tier']}) against {core.REPO} in a fresh interpreter "
+          "(earlier cases of the process are part of the input)")
+    code = ("import sys; sys.path.insert(0, %r); import core; from props import c01; sys.exit(c01.history_child(sys.argv[1]))"
+            % os.path.join(core.VERIF, "harness"))
+    try:
+        p = subprocess.run([core.PY, "-c", code, name], cwd=core.VERIF, timeout=7200)
+    finally:
+        os.remove(name)
+    if p.returncode not in (0, 1, 2):
+        print(f"[{pid} replay] the repeated run ended with exit status {p.returncode}")
+        return 2
+    return p.returncode
+
+
+def history_child(path):
+    import json
+    import importlib
+    spec = json.load(open(path))
+    pid, targets = spec["pid"], spec["targets"]
+    mod = importlib.import_module("props." + pid.lower())
+    phase_of = importlib.import_module(spec["phase_module"]).replay_phase_of
+    whole = any(t["type"] == "broken" for t in targets)
+    limit = None if whole else max((t["phase"], t.get("index") if t.get("index") is not None else 10 ** 9) for t in targets)
+    expect = [json.dumps(t["expect_key"]) for t in targets if t.get("expect_key") is not None]
+    seen = set()
+
+    class H(core.Ctx):
+        def case(self, key=None, classes=(), nontrivial=True, sample=None):
+            ph = phase_of(pid, key)
+            if ph is not None:
+                if limit is not None:
+                    if ph > limit[0]:
+                        raise _Stop()
+                    if ph == limit[0] and limit[1] < 10 ** 9 and len(key) > 1 and type(key[1]) is int and key[1] > limit[1]:
+                        raise _Stop()
+                k = json.dumps(core.jsonable(key))
+                if k in expect:
+                    seen.add(k)
+            super().case(key=key, classes=classes, nontrivial=nontrivial, sample=sample)
+
+    ctx = H(pid, spec["tier"], spec["seed"])
+    for attr, value in (spec.get("pins") or {}).items():      # facts about the recorded run that shaped its case lists
+        setattr(ctx, attr, value)
+    want_model = whole or any(t["type"] == "disagreement" for t in targets)
+    try:
+        mod.run(ctx, model_ok=want_model)
+    except _Stop:
+        pass
+    except Exception as e:  # noqa  (what check.py records)
+        import traceback
+        ctx.broken.append("harness crashed: " + "".join(traceback.format_exception(e))[-1500:])
+    back = 0
+    for t in targets:
+        def same(i):
+            if not isinstance(i, dict):
+                return False
+            if t.get("match"):
+                return all(core.jsonable(i.get(k)) == v for k, v in t["match"].items())
+            return i.get("case") == t["case"]
+        if t["type"] == "failure":
+            hits = [f for f in ctx.failures if f["kind"] == t["name"] and same(f["input"])]
+            shown = [str(core.jsonable(f["observed"]))[:300] for f in hits[:1]]
+        elif t["type"] == "disagreement":
+            hits = [d for d in ctx.disagreements if d["what"] == t["name"] and same(d["input"])]
+            shown = [f"model {str(core.jsonable(d['model']))[:150]} impl {str(core.jsonable(d['impl']))[:150]}" for d in hits[:1]]
+        else:
+            hits = [b for b in ctx.broken if _stem(b) == t["name"]]
+            shown = [str(b)[:300] for b in hits[:1]]
+        label = t["name"] + (" on case " + t["case"] if t.get("case") else " on the recorded tree" if t.get("match") else "")
+        if hits:
+            back += 1
+            print(f"[{pid} replay] in the repeated run: {label} is reported AGAIN: {shown[0]}")
+        else:
+            print(f"[{pid} replay] in the repeated run: {label} is not reported")
+    print(f"[{pid} replay] repeated run: {ctx.evaluations} cases, {len(ctx.failures)} failures, {len(ctx.disagreements)} disagreements, "
+          f"{len(ctx.broken)} broken")
+    if back:
+        return 1
+    missing = [k for k in expect if k not in seen]
+    if missing:
+        print(f"replay: cannot rebuild input of kind history (the repeated run did not contain the recorded case {missing[0][:200]})")
+        return 2
     return 0
+
+
+def replay_phase_of(pid, key):
+    """position of a counted case in run(): 0 Hasher unit scope, 1 creators unit correspondence, 2 end to end"""
+    if not isinstance(key, tuple) or not key:
+        return None
+    if key[0] == "e2e":
+        return 2
+    if key[0] == "flt" or (key[0] == "unit" and len(key) == 7):
+        return 1
+    if key[0] == "unit":
+        return 0
+    return None
+
+
+# ------------------------------------------------------------------------------------------------ replay of C01
+def replay_hasher(tag, sizes, pl, align, tmp, with_model):
+    """Hasher of core.REPO on files of the recorded sizes (contents small_data(index, size)) vs reference BEP 3 hashing and,
+       for a correspondence case, vs the extracted Model/Hasher.v"""
+    datas = [small_data(i, s) for i, s in enumerate(sizes)]
+    d = os.path.join(tmp, f"h{len(os.listdir(tmp))}")
+    os.makedirs(d)
+    try:
+        got = hasher_impl(d, sizes, pl, align, datas)
+    except Exception as e:  # noqa
+        print(f"{tag} VIOLATION Hasher raised on sizes {sizes}, piece length {pl}: {type(e).__name__}: {e}")
+        return 1
+    exp = ref_v1(datas, pl, align)
+    print(f"{tag} Hasher(align={align}) on sizes {sizes}, piece length {pl}:\n   implementation {[h.hex() for h in got][:8]}\n"
+          f"   reference      {[h.hex() for h in exp][:8]}")
+    rc = 0
+    if got != exp:
+        print(f"{tag} VIOLATION hasher-vs-bep3: digests differ from reference hashing of the concatenated files")
+        rc = 1
+    if with_model:
+        outs = modelrun.run("hasher", [("1" if align else "0", str(pl), ",".join(x.hex() for x in datas))])
+        if outs is None:
+            print(f"{tag} cannot evaluate: the extracted hasher driver failed to run (./check --setup)")
+            return rc or 2
+        same = outs[0] == b"".join(got).hex()
+        print(f"{tag} Model/Hasher.v: " + ("model and implementation agree" if same else f"model and implementation DISAGREE (model {outs[0][:120]})"))
+        rc = rc or (0 if same else 1)
+    return rc
+
+
+def _replay_e2e(ctx, kind, inp, tmp):
+    tag = "[C01 replay]"
+    if not isinstance(inp.get("rng_state"), dict) or "index" not in inp:
+        return cannot(kind, "the generator state of the case was not recorded: file contents cannot be rebuilt")
+    core.use_repo_in_process()
+    fresh = core.Ctx("C01", ctx.tier, ctx.seed)
+    fresh.rng = rng_restore(inp["rng_state"])
+    desc = e2e_case(fresh, inp["index"], tmp)
+    if desc["tree"] != inp.get("tree") or desc["piece_length"] != inp.get("piece_length"):
+        return cannot(kind, f"the generator no longer yields the recorded tree: {desc['tree']} vs {inp.get('tree')}")
+    print(f"{tag} case {inp['index']}: tree {desc['tree']}, piece length {desc['piece_length']}, "
+          + ("`torrentfile create`" if desc["cli"] else "TorrentFile(...).write()"))
+    for f in fresh.failures:
+        print(f"{tag} VIOLATION {f['kind']}: {f['observed']}")
+    if not fresh.failures:
+        print(f"{tag} judge: files, lengths, piece length and pieces equal reference BEP 3 hashing of the tree as it is on disk")
+    return 1 if fresh.failures else 0
+
+
+def replay(ctx, data):
+    """rebuilds the recorded case, runs Hasher / creator, reference and model again; 1 violated, 0 holds, 2 cannot rebuild"""
+    from props import c17
+    tag = "[C01 replay]"
+    kind = str(data.get("kind"))
+    inp = data.get("input") if isinstance(data.get("input"), dict) else {}
+    print(f"{tag} kind={kind} implementation under test: {core.REPO}")
+    rcs, again = [], []
+    with core.Scratch("vc01r_") as tmp:
+        os.environ["HOME"] = tmp
+        if data.get("finding") or data.get("reproducer"):
+            rcs.append(c17.replay_finding("C01", data))
+        elif kind in ("create-raised", "v1-metafile"):
+            rcs.append(_replay_e2e(ctx, kind, inp, tmp))
+            if rcs[-1] == 0:
+                again.append({"type": "failure", "name": kind, "case": inp.get("case"), "phase": 2, "index": inp["index"],
+                              "expect_key": None if kind == "create-raised" else
+                              ["e2e", inp["index"], sorted([k, v] for k, v in inp["tree"].items()), inp["piece_length"]]})
+        elif kind.startswith("hasher-vs-bep3"):
+            if "sizes" not in inp or "piece_length" not in inp:
+                rcs.append(cannot(kind, "no size tuple recorded"))
+            else:
+                align = bool(inp.get("align"))
+                rcs.append(replay_hasher(tag, list(inp["sizes"]), inp["piece_length"], align, tmp, with_model=False))
+                if rcs[-1] == 0 and not align:
+                    again.append({"type": "failure", "name": kind, "case": _hasher_case(align, inp["piece_length"], inp["sizes"]),
+                                  "phase": 0, "index": None,
+                                  "expect_key": ["unit", align, list(inp["sizes"]), inp["piece_length"]]})
+        elif kind == "proof-or-correspondence-broken" or "what" in data:
+            dis = data.get("disagreements") or ([data] if "what" in data else [])
+            for d in dis[:5]:
+                di = d.get("input") if isinstance(d.get("input"), dict) else {}
+                what = str(d.get("what", ""))
+                if what.startswith("Model/Hasher.v vs hasher.Hasher"):
+                    if "sizes" in di:
+                        sizes = [int(x) for x in di["sizes"]]
+                    elif len(di.get("files_hex", "x" * 200)) < 200:
+                        sizes = [len(x) // 2 for x in di["files_hex"].split(",")]
+                    else:
+                        rcs.append(cannot("disagreement " + what, "the size tuple was not recorded"))
+                        continue
+                    align = di.get("align") == "1"
+                    rcs.append(replay_hasher(tag, sizes, int(di["pl"]), align, tmp, with_model=True))
+                    if rcs[-1] == 0 and not align:
+                        again.append({"type": "disagreement", "name": what, "case": _hasher_case(align, int(di["pl"]), sizes),
+                                      "phase": 0, "index": None, "expect_key": ["unit", align, sizes, int(di["pl"])]})
+                elif what.startswith("Model/Creators.v"):
+                    rcs.append(replay_creators_item(ctx, d, tag))
+                    if rcs[-1] == 0 and creators_target(d, 1):
+                        again.append(creators_target(d, 1))
+                else:
+                    rcs.append(cannot("disagreement " + repr(what), "unknown correspondence"))
+            if data.get("broken"):
+                rcs += replay_broken(ctx, "C01", data, "props.c01")
+            if not dis and not data.get("broken"):
+                print(f"{tag} the file records neither a disagreement nor a broken obligation: nothing to replay")
+                rcs.append(2)
+        else:
+            rcs.append(cannot(kind, "unknown kind"))
+    if again and 1 not in rcs:
+        rcs.append(history("C01", data, again, "props.c01"))
+    return verdict(tag, rcs)
